@@ -889,7 +889,7 @@ fn c13_case(ctx: &Ctx, ci: u64, cfgt: (TC, CP, MC, bool, u8), st: &mut Stats) ->
     let layouts = [(0u8, 0u8), (1, 0), (1, 1), (0, 1), (2, 0), (2, 2)];
     let ss = layouts[(ci % 6) as usize];
     let cfg = cfg_full(m, t, p, full, n, ss);
-    let (w, h) = (8usize, if ctx.flag("lite") { 4 } else { ctx.pick(8, 64) });
+    let (w, h) = (8usize, if ctx.flag("lite") { 4 } else { ctx.pick(24, 128) });
     let px = hostile_image(&mut rng, w * h, st);
     let cj = J::obj().set("kind", "c13").set("config_index", ci).set("cfg", cfg_json(&cfg));
     let mut conv = 0u64;
